@@ -300,8 +300,10 @@ class FakeFrame(object):
         raise Unsupported('FakeFrame[%r]' % (key,))
 
     def dropna(self, axis=0, subset=None, how='any', inplace=False):
-        if axis != 0 or subset is None:
+        if axis != 0 or how != 'any':
             raise Unsupported('dropna form not modelled')
+        if subset is None:
+            subset = list(self._cols)         # pandas: any missing cell in the row
         if inplace:
             # pandas mutates the receiver and returns None; logged as a mutation of the frame
             res = self.dropna(axis=axis, subset=subset, how=how)
